@@ -79,6 +79,10 @@ func genRng(t *rapid.T, L uint64, P int64) Rng {
 	}
 	if P > 0 {
 		anchors = append(anchors, uint64(P-1), uint64(P), uint64(P+1))
+		// the same boundary for the callers' 2*hdrBuf (and larger) buffers of ReadObject/ReadObjectParts
+		for _, p2 := range []uint64{uint64(P) + hdrBuf, uint64(P) + hdrBuf + 1, uint64(P) + (64<<10 - hdrBuf), uint64(P) + (128<<10 - hdrBuf)} {
+			anchors = append(anchors, p2-1, p2, p2+1, p2+57)
+		}
 	}
 	pos := func(lbl string) uint64 {
 		switch rapid.IntRange(0, 3).Draw(t, lbl+"-k") {
